@@ -75,7 +75,10 @@ class Events:
 
     def __init__(self, faults=None):
         self.log = []            # list of [idx, kind, relpath, info, count]
-        self.faults = {int(f["at"]): f for f in (faults or [])}
+        self.faults = {int(f["at"]): f for f in (faults or []) if "at" in f}
+        # alternative addressing: {"on": <event kind>, "nth": n} = n-th event of that kind in this op
+        self.kfaults = {(f["on"], int(f.get("nth", 0))): f for f in (faults or []) if "at" not in f}
+        self.kcount = {}
         self.fired = []          # faults that actually fired
         self.crashed = False
         self.n = 0
@@ -91,13 +94,19 @@ class Events:
         last = self.log[-1] if self.log else None
         if (kind in ("write", "stdout_write") and last is not None and last[1] == kind and last[2] == rel
                 and not info[1] and not last[3][1] and last[0] + last[4] == idx
-                and idx not in self.faults and (idx - 1) not in self.faults):
+                and idx not in self.faults and (idx - 1) not in self.faults and not self.kfaults):
             # run of buffered writes that cause no drain: one log entry, counted
             last[3][0] += info[0]
             last[4] += 1
         else:
             self.log.append([idx, kind, rel, info, 1])
         f = self.faults.get(idx)
+        if self.kfaults:
+            k = self.kcount.get(kind, 0)
+            self.kcount[kind] = k + 1
+            if f is None and (kind, k) in self.kfaults:
+                f = dict(self.kfaults[(kind, k)], at=idx)
+                self.faults[idx] = f
         if f is not None:
             applicable = f["kind"].startswith("crash") or kind in FAULTABLE
             if applicable:
@@ -120,7 +129,7 @@ class Events:
         return hashlib.sha256(json.dumps(self.log, sort_keys=True, default=str).encode()).hexdigest()
 
 
-FAULTABLE = {"open_out", "write", "flush", "close", "stdout_write", "stdout_flush", "remove"}
+FAULTABLE = {"open_out", "write", "flush", "close", "stdout_write", "stdout_flush", "remove", "rename", "replace"}
 
 
 # =============================================================================
@@ -268,12 +277,12 @@ class SimStream:
     """stdout: text stream with buffer + fault sites.  `delivered` is what
     reached the sink (terminal / pipe / file)."""
 
-    def __init__(self, ev, bufsize, kind="stdout"):
+    def __init__(self, ev, bufsize, kind="stdout", encoding="utf-8"):
         self._ev, self._bufsize, self._kind = ev, bufsize, kind
         self._buf = []
         self._buflen = 0
         self.delivered = []
-        self.encoding = "utf-8"
+        self.encoding = encoding or "utf-8"
         self.errors = "strict"
         self.closed = False
         self.broken = False
@@ -303,6 +312,7 @@ class SimStream:
             raise SimCrash("dead")
         if not isinstance(s, str):
             raise TypeError("write() argument must be str, not %s" % type(s).__name__)
+        s.encode(self.encoding, self.errors)      # a real text stream raises UnicodeEncodeError here
         will_drain = self._bufsize is not None and self._buflen + len(s) > self._bufsize
         idx, f = self._ev.point(self._kind + "_write", None, [len(s), int(will_drain)])
         if f is not None and f["kind"] in ("error", "short"):
@@ -354,6 +364,7 @@ class SimFS:
         self.order = {"policy": "asc", "key": 0}
         self.file_bufsize = None
         self.open_files = []
+        self.fds = {}            # fd -> rel for descriptors opened for writing below the root
         self.mutations = []      # (kind, rel) of every mutating call seen by the seams
         self.listings = []       # (rel, tuple(names)) served
         self.installed = False
@@ -500,11 +511,66 @@ class SimFS:
     def s_os_open(self, path, flags, mode=0o777, *, dir_fd=None):
         rel = self.rel(path) if dir_fd is None else None
         if rel is not None and flags & (os.O_WRONLY | os.O_RDWR | os.O_CREAT | os.O_TRUNC | os.O_APPEND):
-            self.ev.point("os_open_w", rel, None)
-            self.mutations.append(("os.open(w)", rel))
+            idx, f = self.ev.point("open_out", rel, ["os.open"])
+            if f is not None and f["kind"] in ("error", "short", "short_ok"):
+                raise _oserror(f.get("errno", "ENOSPC"), path)
+            self.mutations.append(("open_out", rel))
+            fd = _o.os_open(path, flags, mode)
+            self.fds[fd] = rel
+            self.ev.after(idx)
+            return fd
         if dir_fd is None:
             return _o.os_open(path, flags, mode)
         return _o.os_open(path, flags, mode, dir_fd=dir_fd)
+
+    # file-descriptor level output (os.write / os.fsync / os.close on a tracked fd)
+    def s_os_write(self, fd, data):
+        rel = self.fds.get(fd) if self.active else None
+        if rel is None:
+            return _o.os_write(fd, data)
+        n = len(data)
+        idx, f = self.ev.point("write", rel, [n, 1, "fd"])
+        if f is not None and f["kind"] in ("error", "short"):
+            if f["kind"] == "short":
+                _o.os_write(fd, bytes(data[:min(int(f.get("keep", 0)), n)]))
+            raise _oserror(f.get("errno", "ENOSPC"), rel)
+        if f is not None and f["kind"] == "short_ok" and n > 1:
+            # a legal short write: fewer bytes than requested, no error
+            k = max(1, min(int(f.get("keep", 1)), n - 1))
+            res = _o.os_write(fd, bytes(data[:k]))
+        else:
+            res = _o.os_write(fd, data)
+        self.ev.after(idx)
+        return res
+
+    def s_os_fsync(self, fd):
+        rel = self.fds.get(fd) if self.active else None
+        if rel is None:
+            return self._saved["fsync"](fd)
+        idx, f = self.ev.point("flush", rel, [0, "fsync"])
+        if f is not None and f["kind"] in ("error", "short"):
+            raise _oserror(f.get("errno", "EIO"), rel)
+        res = self._saved["fsync"](fd)
+        self.ev.after(idx)
+        return res
+
+    def s_os_close(self, fd):
+        rel = self.fds.get(fd) if self.active else None
+        if rel is None:
+            return _o.os_close(fd)
+        del self.fds[fd]
+        if self.ev.crashed:
+            _o.os_close(fd)
+            raise SimCrash("dead")
+        try:
+            idx, f = self.ev.point("close", rel, [0, "fd"])
+        except SimCrash:
+            _o.os_close(fd)
+            raise
+        _o.os_close(fd)
+        if f is not None and f["kind"] in ("error", "short"):
+            raise _oserror(f.get("errno", "EIO"), rel)
+        self.ev.after(idx)
 
     # ---- install / uninstall
     def install(self):
@@ -512,7 +578,7 @@ class SimFS:
             return
         self._saved = {}
         patch = {"walk": self.s_walk, "listdir": self.s_listdir, "scandir": self.s_scandir,
-                 "open": self.s_os_open}
+                 "open": self.s_os_open, "write": self.s_os_write, "fsync": self.s_os_fsync, "close": self.s_os_close}
         for name, n in (("remove", 1), ("unlink", 1), ("rename", 2), ("replace", 2), ("rmdir", 1),
                         ("mkdir", 1), ("makedirs", 1), ("truncate", 1), ("link", 2), ("symlink", 2),
                         ("removedirs", 1), ("renames", 2), ("chmod", 1), ("utime", 1)):
@@ -545,6 +611,13 @@ class SimFS:
     def end_op(self, interpreter_exit=True):
         """What the interpreter does with file objects nobody closed: CPython
         flushes+closes them when they are collected (at the latest at exit)."""
+        for fd in list(self.fds):
+            # the kernel closes descriptors at process exit; written bytes stay
+            try:
+                _o.os_close(fd)
+            except OSError:
+                pass
+        self.fds.clear()
         leaked = [f for f in self.open_files if not f.closed]
         for f in leaked:
             if self.ev.crashed:
@@ -882,12 +955,12 @@ class World:
 
     # ---- run one CLI invocation in-process
     def run(self, argv, order=None, faults=None, file_bufsize=None, stdout_bufsize=None,
-            exit_flush=True):
+            exit_flush=True, stdout_encoding="utf-8"):
         """argv: list of str where '@/x' is replaced by <root>/x."""
         real = [self.path(a[2:]) if a.startswith("@/") else (self.root if a == "@" else a) for a in argv]
         fs = self.fs
         fs.begin_op(order, faults, file_bufsize)
-        out = SimStream(fs.ev, stdout_bufsize, "stdout")
+        out = SimStream(fs.ev, stdout_bufsize, "stdout", stdout_encoding)
         err = PlainCapture()
         res = OpResult()
         res.argv = list(argv)
